@@ -30,6 +30,14 @@ def run(prog, rep):
     rep.part(argorder, prog, rep)
     rep.part(delegate, prog, rep)
     rep.part(mc, prog, rep)
+    rep.part(float_buffers, prog, rep)
+    rep.part(lower_limits, prog, rep)
+    rep.expect_min("C06.limits", 3)
+    rep.explanation += (" C06.limits: the cdf and the marginals integrate the density from the lower end of each variable's support; a constant lower "
+                        "limit 0 leaves out the mass below 0 of every variable that can be negative (Normal, von Mises).")
+    rep.expect_min("C06.buffer", 3)
+    rep.explanation += (" C06.buffer: the arrays that receive densities / probabilities are float arrays - np.empty_like(x) of integer-valued points is an "
+                        "integer array in which every value below 1 becomes 0.")
     rep.expect_min("C06.chain", 6)
     rep.expect_min("C06.finite", 3)
     rep.expect_min("C06.argorder", 14)
@@ -83,6 +91,47 @@ def pdf_chain(prog, rep):
         okr = t[2][0] in bases and ax in (("const", -1), ("const", 1)) and set(dict(t[3])) == {"axis"}
     rep.check(okr, "C06.chain", f"{fn.qualname}:product", fn.where(ret[-1]) if ret else fn.where(), "return prod(fs, axis=-1) of the whole factor matrix",
               f"the joint density must be the product over the last axis of the complete factor matrix; found {show(t)[:120] if t else None}")
+
+
+def float_buffers(prog, rep):
+    from .buffers import float_buffer
+    for name in ("pdf", "marginal_pdf", "marginal_cdf"):
+        fn = prog.func(f"{GHM}.{name}")
+        rep.analysed(fn)
+        b = builder(prog, fn, inline=False)
+        seen = {}
+        for st in cfg_of(fn).all_stmts():
+            if isinstance(st, ast.Assign) and isinstance(st.targets[0], ast.Subscript):
+                base = b.term(st.targets[0].value, st)
+                fb = float_buffer(base)
+                if fb is not None and base not in seen:
+                    seen[base] = (st, fb)
+        if not seen:
+            rep.ok("C06.buffer", f"{fn.qualname}:result", fn.where(), "no pre-allocated result buffer is filled element by element", nontrivial=False)
+        for base, (st, fb) in seen.items():
+            rep.check(fb, "C06.buffer", f"{fn.qualname}:{show(base)[:40]}", fn.where(st), "results are stored into a float array",
+                      f"results are stored into {show(base)[:70]}, which takes the dtype of the evaluation points: model.{name}([[3, 8]]) with integer points returns 0 "
+                      "(every density / probability below 1 is truncated)")
+
+
+def lower_limits(prog, rep):
+    for q in (f"{JM}.MultivariateModel.cdf", f"{GHM}.marginal_pdf", f"{GHM}.marginal_cdf"):
+        fn = prog.func(q)
+        b = builder(prog, fn, inline=False)
+        zero_lo = []
+        for st in cfg_of(fn).all_stmts():
+            for n in ast.walk(st) if isinstance(st, (ast.Assign, ast.Expr, ast.Return, ast.AugAssign)) else []:
+                if isinstance(n, ast.Call):
+                    tc = b.term(n, st)
+                    if tc[0] == "call" and tc[1] == G("scipy.integrate.nquad"):
+                        bd = bind(tc) or {}
+                        r = bd.get("ranges")
+                        if r is not None and any(w == ("const", 0) for w in walk(r)):
+                            zero_lo.append(st)
+        rep.check(not zero_lo, "C06.limits", f"{q}:lower-limit", fn.where(zero_lo[0]) if zero_lo else fn.where(),
+                  "the integration starts at the lower end of the support",
+                  "the density is integrated from the constant 0: for a variable that can be negative (X0 ~ Normal(0, 1), X1 | X0 ~ Normal(x0, 1)) cdf([[0, 0]]) "
+                  "returns 0.0 (true 0.375) and marginal_cdf([-1, 0, 1], 1) returns [-0.096, 0, 0.164] (true [0.24, 0.5, 0.76])")
 
 
 def finite(prog, rep):
